@@ -229,10 +229,12 @@ func inheritedNonTransitive(e *eco.Eco, strs []string) bool {
 	return false
 }
 
-// mavenExpandBareAliases rewrites letter runs that are exactly a, b or m (any case) to alpha, beta, milestone.
+// mavenExpandBareAliases rewrites qualifier ITEMS that are exactly a, b or m (any case) to alpha, beta, milestone. An
+// item is a maximal run of characters that are neither digits nor the separators '.' and '-' (ComparableVersion's
+// tokenisation): "+b" is one item and no alias, "-b" is.
 func mavenExpandBareAliases(s string) string {
 	var out strings.Builder
-	isL := func(c byte) bool { return (c >= 'a' && c <= 'z') || (c >= 'A' && c <= 'Z') }
+	isL := func(c byte) bool { return !(c >= '0' && c <= '9') && c != '.' && c != '-' }
 	for i := 0; i < len(s); {
 		if !isL(s[i]) {
 			out.WriteByte(s[i])
